@@ -84,7 +84,8 @@ def _sv_job(a):
 def main():
     props = sys.argv[1:]
     built = sorted(os.path.basename(f)[:-3].upper() for f in glob.glob(os.path.join(V, "sa", "rules", "c*.py")))
-    jobs = [(p, k) for p in props for k in (1, 2, 3)]
+    ks = tuple(int(x) for x in os.environ.get("SEED_KS", "1,2,3").split(","))
+    jobs = [(p, k) for p in props for k in ks]
     results = []
     lanes = [[], [], [], []]
     for i, j in enumerate(jobs):
